@@ -176,6 +176,7 @@ def op_binary(eng, task):
         xs[1] = xs[0]           # the very same object on both sides (psi + psi, op - op, op @ op)
     inputs = dict(op=which, x0=tn.mps_json(xs[0]), x1=tn.mps_json(xs[1]))
     snap = snapshot(arrays_of(xs))
+    attr_snap = [(x, frozenset(vars(x))) for x in xs]
     if which in ('add_mps', 'add_mpo'):
         res = xs[0] + xs[1]
     elif which in ('sub_mps', 'sub_mpo'):
@@ -185,7 +186,7 @@ def op_binary(eng, task):
     else:
         res = apply_operator(xs[0], xs[1])
     rk = 'mps' if which in ('add_mps', 'sub_mps', 'apply') else 'mpo'
-    return dict(results=[(res, rk, which)], snap=snap, operands=[(x, k, f'operand{i}') for i, (x, k) in enumerate(zip(xs, kinds))], pure=True, inputs=inputs)
+    return dict(results=[(res, rk, which)], snap=snap, attr_snap=attr_snap, operands=[(x, k, f'operand{i}') for i, (x, k) in enumerate(zip(xs, kinds))], pure=True, inputs=inputs)
 
 
 def op_split(eng, task):
@@ -234,6 +235,7 @@ def op_tdvp(eng, task):
     dt = eng.sym('dt')
     inputs = dict(op='tdvp_' + variant, psi=tn.mps_json(psi), H=tn.mps_json(H), dt=dt)
     snap = snapshot(arrays_of([H]))
+    attr_snap = [(H, frozenset(vars(H)))]
     old = (psi.qD[0].copy(), psi.qD[-1].copy())
     old_dims = list(psi.bond_dims)
     sz = struct_zero(psi, 'mps')
@@ -248,7 +250,7 @@ def op_tdvp(eng, task):
             nrm = EV.integrate_local_twosite(H, psi, dt, task.get('nsteps', 1), numiter_lanczos=KRYLOV_M, tol_split=tol)
     finally:
         poly.ABSTRACT[0] = None
-    return dict(results=[(psi, 'mps', 'tdvp state')], snap=snap, operands=[(H, 'mpo', 'H')], pure=False, boundary=(psi, old, nrm),
+    return dict(results=[(psi, 'mps', 'tdvp state')], snap=snap, attr_snap=attr_snap, operands=[(H, 'mpo', 'H')], pure=False, boundary=(psi, old, nrm),
                 inputs=inputs, old_dims=old_dims, single_site=(variant == 'single'), state_zero=sz)
 
 
@@ -259,6 +261,7 @@ def op_dmrg(eng, task):
     H = _sym_hamiltonian(eng, d, PW, qd.copy())
     inputs = dict(op='dmrg_' + variant, psi=tn.mps_json(psi), H=tn.mps_json(H))
     snap = snapshot(arrays_of([H]))
+    attr_snap = [(H, frozenset(vars(H)))]
     old = (psi.qD[0].copy(), psi.qD[-1].copy())
     old_dims = list(psi.bond_dims)
     sz = struct_zero(psi, 'mps')
@@ -273,7 +276,7 @@ def op_dmrg(eng, task):
             en = MI.calculate_ground_state_local_twosite(H, psi, task.get('nsteps', 1), numiter_lanczos=KRYLOV_M, tol_split=tol)
     finally:
         poly.ABSTRACT[0] = None
-    return dict(results=[(psi, 'mps', 'dmrg state')], snap=snap, operands=[(H, 'mpo', 'H')], pure=False, boundary=(psi, old, None),
+    return dict(results=[(psi, 'mps', 'dmrg state')], snap=snap, attr_snap=attr_snap, operands=[(H, 'mpo', 'H')], pure=False, boundary=(psi, old, None),
                 inputs=inputs, old_dims=old_dims, single_site=(variant == 'single'), state_zero=sz)
 
 
